@@ -84,6 +84,10 @@ def run_impl(case):
         obs["vec"] = T.to_gauss(y)
         obs["vec_shape"] = list(y.shape)
         obs["ok"] = True
+        try:
+            obs["resl_dtype"] = str((XL @ A).dtype)
+        except Exception:
+            obs["resl_dtype"] = None
     except Exception as e:  # an exception on a well-formed case is an observation, not a skip
         obs["ok"] = False
         obs["err"] = type(e).__name__ + ": " + str(e)[:200]
